@@ -1,9 +1,11 @@
 /-
 C10 — session resumption is sound and falls back transparently.
 
-Property theorems only (helpers: `Gotlcp.Lemmas.Resumption`, `Gotlcp.Lemmas.ResumptionInv`).
+Property theorems only (helpers: `Gotlcp.Lemmas.Resumption`, `Gotlcp.Lemmas.ResumptionInv`,
+`Gotlcp.Lemmas.ResumptionFail`, `Gotlcp.Lemmas.ResumptionPeer`).
 The model is `Gotlcp.Model.Resumption`: a world of caches and session objects, one step per
-connection (harness actions on the caches, two configurations, a man-in-the-middle fault).
+connection (harness actions on the caches, two configurations — cipher suites, the server's
+client-authentication policy, the client's certificate — and a man-in-the-middle fault).
 All statements hold for every history of any length, every cache capacity (including 1),
 every sequence of configurations and faults; the parameters that distinguish trees
 (`perKeyObject` – F5, `storeAfterFinished` – F16, `verifyOnLoad` – F13, `strictDelete` – F17)
@@ -14,6 +16,7 @@ source does not repeat" is the hypothesis `Function.Injective src` (trusted RNG)
 -/
 import Gotlcp.Lemmas.ResumptionInv
 import Gotlcp.Lemmas.ResumptionFail
+import Gotlcp.Lemmas.ResumptionPeer
 import Gotlcp.Oracle.C10
 
 set_option linter.unusedSimpArgs false
@@ -26,6 +29,7 @@ open Gotlcp.Model.LRU (Entry)
 open Gotlcp.Lemmas.Resumption
 open Gotlcp.Lemmas.ResumptionInv
 open Gotlcp.Lemmas.ResumptionFail
+open Gotlcp.Lemmas.ResumptionPeer
 
 /-- the world reached by a history from empty caches -/
 def reach (p : Params) (src : Nat → Nat) (d : Nat) (ccap scap : Int) (h : List Conn) : World :=
@@ -65,11 +69,11 @@ theorem C10_resumed_only_if (p : Params) (src : Nat → Nat) (w : World) (c : Co
   split at h
   · rename_i so hr
     have ho := (resume_obs p (afterCheck p w' c).1 c (loadedOf p w' c) so (w'.nSec, w'.nSec + 1)
-      (pickSuite p c.ssuites (offer p c.csuites))).2 (h.symm)
+      (fullOutcome p c)).2 (h.symm)
     have hfr := afterCheck_frame p w' c
     have hal := afterLoad_frame p w' c
     unfold afterCheck at hr
-    obtain ⟨x, hx, hso, _, hvers, hs1, hs2⟩ := checkForResumption_some hr
+    obtain ⟨x, hx, hso, _, hvers, hs1, hs2, _, _⟩ := checkForResumption_some hr
     rw [hal.1] at hso
     rw [hal.2.1] at hvers hs1 hs2
     refine ⟨x, so, ?_, ?_, hso, hvers, offer_sub p _ hs1, hs2, ?_⟩
@@ -86,7 +90,7 @@ theorem C10_resumed_only_if (p : Params) (src : Nat → Nat) (w : World) (c : Co
     split at h
     · simp [failed] at h
     · have := full_obs p src (afterCheck p w' c).1 c (loadedOf p w' c) ‹_› (w'.nSec, w'.nSec + 1)
-        (pickSuite p c.ssuites (offer p c.csuites))
+        (fullOutcome p c)
       rcases h with h | h
       · rw [this.2] at h; cases h
       · rw [this.1] at h; cases h
@@ -106,14 +110,15 @@ configurations, evictions, forged or stale cache entries, lost server caches and
 man-in-the-middle failures; client cache of any capacity including 1), an undisturbed
 connection either is a resumption that completes on both sides (both report it, the ServerHello
 echoes the offered identifier), or is a full handshake that behaves exactly as if nothing had
-been offered: it completes iff the two configurations share a suite, negotiates the suite a
-full handshake negotiates (`pickSuite`), authenticates the server it is run with, and gets a
-new identifier from the random source. No third outcome exists — in particular no honest
-handshake fails because of what a cache holds (F5). -/
+been offered: it completes iff the cache-less handshake of the two configurations completes
+(`fullOutcome`: they share a suite and the client has a certificate when the policy requires one),
+negotiates the suite a full handshake negotiates (`pickSuite`), authenticates the server it is
+run with, and gets a new identifier from the random source. No third outcome exists — in
+particular no honest handshake fails because of what a cache holds (F5). -/
 theorem C10_fallback (p : Params) (hr : Repaired p) (src : Nat → Nat) (hinj : Function.Injective src)
     (d : Nat) (ccap scap : Int) (h : List Conn) (c : Conn) (hf : c.fault = .none) :
     let o := (step p src (reach p src d ccap scap h) c).2
-    let full := pickSuite p c.ssuites (offer p c.csuites)
+    let full := fullOutcome p c
     (o.cOk = true ∧ o.sOk = true ∧ o.cRes = true ∧ o.sRes = true ∧ o.offered.isSome = true ∧ o.returned = o.offered) ∨
     (o.cRes = false ∧ o.sRes = false ∧ o.cOk = full.isSome ∧ o.sOk = full.isSome ∧
       (∀ su, full = some su → o.suite = some su ∧ o.peer = some c.server ∧
@@ -149,6 +154,70 @@ theorem C10_same_identity_resumed (p : Params) (hr : Repaired p) (hv : p.verifyO
   rcases connect_honest p hinj hi c hf with ⟨_, _, _, _, _, _, _, hp⟩ | ⟨a, _⟩
   · exact hp hv
   · unfold step at hres; rw [a] at hres; cases hres
+
+/-! ### the server's view of its peer: same identity as the original -/
+
+/-- **Resumed server identity (one connection).** In any world whatsoever, if the server side of
+the next connection reports resumption, the session it resumes is in its cache under the offered
+identifier, and the peer identity it reports (`ConnectionState().PeerCertificates`) is exactly the
+client certificate recorded in that session — under EVERY client-authentication policy (for the
+non-verifying policies too); both of the server's callbacks (`VerifyPeerCertificate`,
+`VerifyConnection`) are run on that identity, and `VerifiedChains` is set iff the policy verifies
+and a certificate is recorded. A session without a client certificate is not resumed under a
+policy that requires one, and a session with one is not resumed under NoClientCert. -/
+theorem C10_resumed_server_identity (p : Params) (src : Nat → Nat) (w : World) (c : Conn)
+    (h : (step p src w c).2.sRes = true) :
+    ∃ x so, (step p src w c).2.offered = some x ∧
+      (⟨idKey x, some so⟩ : Entry) ∈ ((startOf p src w c).servers c.server).q ∧
+      (step p src w c).2.speer = ((startOf p src w c).heap so).cpeer ∧
+      (step p src w c).2.vpc = some ((startOf p src w c).heap so).cpeer ∧
+      (step p src w c).2.vc = some ((startOf p src w c).heap so).cpeer ∧
+      (step p src w c).2.sver = (verifiesCert p c.auth && ((startOf p src w c).heap so).cpeer.isSome) ∧
+      (((startOf p src w c).heap so).cpeer.isNone = true → requiresCert p c.auth = false) ∧
+      (((startOf p src w c).heap so).cpeer.isSome = true → c.auth ≠ 0) := by
+  unfold step at h ⊢
+  unfold startOf
+  exact connect_resumed_server p src _ c h
+
+/-- **Full-handshake server identity (one connection).** In any world, if the server completes a
+connection that is not a resumption, the peer identity it reports is the certificate the client
+sent: the configured one when the policy asks for a certificate, nothing otherwise; a required
+certificate was not missing. (This is what `createSessionState` records in the new session.) -/
+theorem C10_full_server_identity (p : Params) (src : Nat → Nat) (w : World) (c : Conn)
+    (hs : (step p src w c).2.sOk = true) (hr : (step p src w c).2.sRes = false) :
+    (step p src w c).2.speer = sentCert p c ∧
+    (step p src w c).2.vpc = (if requestsCert p c.auth then some (sentCert p c) else none) ∧
+    (step p src w c).2.vc = some (sentCert p c) ∧
+    (step p src w c).2.sver = (verifiesCert p c.auth && (sentCert p c).isSome) ∧
+    certMissing p c = false := by
+  unfold step at hs hr ⊢
+  exact connect_full_server p src _ c hs hr
+
+/-- **Same identity on the server side.** After ANY history (any parameters, any random source:
+no hypothesis is needed), if the server side of the next connection completes as a resumption,
+then an EARLIER connection of the history reached the same server, was completed by it as a full
+handshake whose ServerHello carried the identifier that is offered now, and the client identity
+the server reports now is the one it reported then — whatever client-authentication policies the
+two connections ran under and whatever certificate the client is configured with now. -/
+theorem C10_same_identity_server (p : Params) (src : Nat → Nat) (d : Nat) (ccap scap : Int) (h : List Conn) (c : Conn)
+    (hs : (step p src (reach p src d ccap scap h) c).2.sOk = true)
+    (hres : (step p src (reach p src d ccap scap h) c).2.sRes = true) :
+    ∃ (i : Nat) (ci : Conn) (oi : Obs), h[i]? = some ci ∧ (run p src (Resumption.init d ccap scap) h).2[i]? = some oi ∧
+      ci.server = c.server ∧ oi.sOk = true ∧ oi.sRes = false ∧
+      oi.returned = (step p src (reach p src d ccap scap h) c).2.offered ∧
+      oi.speer = (step p src (reach p src d ccap scap h) c).2.speer := by
+  have hx := sext_run p src h [] _ (sext_init d ccap scap)
+  rw [List.append_nil] at hx
+  have h0 := sext_frame (frame_runPres p src c c.pre _) hx
+  obtain ⟨x, so, hoff, hmem, hsp, _⟩ := C10_resumed_server_identity p src (reach p src d ccap scap h) c hres
+  simp only [startOf] at hmem hsp
+  obtain ⟨_, hkey, hin⟩ := h0 c.server _ hmem so rfl
+  have hid : x = ((runPres p src c (reach p src d ccap scap h) c.pre).heap so).id := idKey_inj hkey
+  obtain ⟨i, ci, oi, a, b, m⟩ := mem_issuedAll h _ hin
+  obtain ⟨m1, m2, m3, m4, m5⟩ := mem_issued m
+  refine ⟨i, ci, oi, a, b, m3.symm, m1, m2, ?_, ?_⟩
+  · rw [m4, hoff, hid]; rfl
+  · rw [m5, hsp]; rfl
 
 /-! ### new sessions get new identifiers -/
 
@@ -235,6 +304,30 @@ theorem C10_facts :
     Facts.missing = [] := by
   decide
 
+set_option maxRecDepth 100000 in
+/-- The facts behind the server's view of its peer (both stacks): the client-authentication
+policies are the six of the enumeration (a certificate is required under 2, 4, 5, requested from 1,
+verified from 3); on the resumption path the server calls `processCertsFromClient` — the only
+function of handshake_server.go that assigns `c.peerCertificates` — UNCONDITIONALLY on the
+certificates collected from `hs.sessionState.peerCertificates`, then `VerifyConnection` when
+configured; a new session records `hs.peerCertificates`, which doFullHandshake sets from
+`c.peerCertificates`. -/
+theorem C10_facts_peer :
+    Oracle.C10.tlcpParams.requires = [2, 4, 5] ∧ Oracle.C10.dtlcpParams.requires = [2, 4, 5] ∧
+    Oracle.C10.tlcpParams.requestFrom = 1 ∧ Oracle.C10.dtlcpParams.requestFrom = 1 ∧
+    Oracle.C10.tlcpParams.verifyFrom = 3 ∧ Oracle.C10.dtlcpParams.verifyFrom = 3 ∧
+    Facts.tlcp.saPolicyOrder.length = 6 ∧ Facts.dtlcp.saPolicyOrder = Facts.tlcp.saPolicyOrder ∧
+    Facts.tlcp.resResumeCertGuards = [] ∧ Facts.dtlcp.resResumeCertGuards = [] ∧
+    Facts.tlcp.resResumeCertArg = "Certificate{Certificate: sessionCerts}" ∧ Facts.dtlcp.resResumeCertArg = Facts.tlcp.resResumeCertArg ∧
+    Facts.tlcp.resResumeCertSource = "hs.sessionState.peerCertificates" ∧ Facts.dtlcp.resResumeCertSource = Facts.tlcp.resResumeCertSource ∧
+    Facts.tlcp.resResumeVerifyConnGuards = ["c.config.VerifyConnection != nil"] ∧
+    Facts.dtlcp.resResumeVerifyConnGuards = Facts.tlcp.resResumeVerifyConnGuards ∧
+    Facts.tlcp.resServerPeerWriters = ["Conn.processCertsFromClient"] ∧ Facts.dtlcp.resServerPeerWriters = Facts.tlcp.resServerPeerWriters ∧
+    Facts.tlcp.resSessionPeerExpr = "hs.peerCertificates" ∧ Facts.dtlcp.resSessionPeerExpr = "hs.peerCertificates" ∧
+    Facts.tlcp.resFullRecordsPeer = true ∧ Facts.dtlcp.resFullRecordsPeer = true ∧
+    Facts.missing = [] := by
+  decide
+
 /-- both stacks run the repaired client -/
 theorem C10_repaired : Repaired Oracle.C10.tlcpParams ∧ Repaired Oracle.C10.dtlcpParams :=
   ⟨⟨C10_facts.1, C10_facts.2.2.1⟩, ⟨C10_facts.2.1, C10_facts.2.2.2.1⟩⟩
@@ -270,6 +363,23 @@ example : ((run tlcpParams id (Resumption.init 64 4 4)
     [(false, none, some 0, false), (true, none, some 1, false)] := by decide
 
 example : Function.Injective (id : Nat → Nat) := fun _ _ h => h
+
+/-- a client with certificate 0 under each of the five policies that ask for one: connection 0 is
+a full handshake, 1 and 2 are resumed and the server reports the same client identity every time
+(`C10_same_identity_server`, `C10_resumed_server_identity` are not vacuous) -/
+example : ([1, 2, 3, 4, 5].map fun a =>
+    ((run tlcpParams id (Resumption.init 64 4 4)
+      [{ hon 0 with auth := a, ccert := some 0 }, { hon 0 with auth := a, ccert := some 0 }, { hon 0 with auth := a, ccert := some 0 }]).2.map
+      (fun o => (o.sRes, o.sOk && o.speer == some 0 && o.vpc == some (some 0) && o.vc == some (some 0))))) =
+    List.replicate 5 [(false, true), (true, true), (true, true)] := by decide
+
+/-- the two client-authentication guards of checkForResumption: a session without a client
+certificate is not resumed once the policy requires one (the full handshake then fails: the client
+has none), and a session with one is not resumed under NoClientCert (full handshake, no identity) -/
+example : ((run tlcpParams id (Resumption.init 64 4 4)
+      [hon 0, { hon 0 with auth := 2 }, { hon 0 with auth := 1, ccert := some 1 }, { hon 0 with ccert := some 1 }]).2.map
+      (fun o => (o.cOk, o.sOk, o.sRes, o.speer))) =
+    [(true, true, false, none), (false, false, false, none), (true, true, false, some 1), (true, true, false, none)] := by decide
 
 end examples
 
